@@ -2,6 +2,7 @@ package specification
 
 import (
 	"fmt"
+	"strings"
 
 	"github.com/getkin/kin-openapi/openapi3"
 )
@@ -40,7 +41,8 @@ func NewSecurityScheme(s *openapi3.SecurityScheme) (*SecurityScheme, error) {
 		Name: s.Name,
 		In:   SecuritySchemeIn(s.In),
 
-		Scheme:       s.Scheme,
+		// HTTP authentication scheme names are case-insensitive (RFC 7235); IANA registers "Bearer"
+		Scheme:       strings.ToLower(s.Scheme),
 		BearerFormat: s.BearerFormat,
 
 		Flows: flows,
